@@ -112,9 +112,19 @@ Definition da_end (clamped : bool) (height now : Z) (i : da_in) : res (Da.dstate
 Record sc_in := {
   sc_queue : list ShareClass.unb;   (* in completion-time index order *)
   sc_mod_bond : Z;                  (* bond-denom balance of the module account before the block *)
-  sc_released : Z                   (* paid by x/staking's end blocker for the entries it completed *)
+  sc_released : Z;                  (* paid by x/staking's end blocker for the entries it completed *)
+  sc_blocked : list Z               (* ids of the entries whose recipient the bank refuses to pay
+                                       (BlockedAddr: module accounts); none since the handler rejects
+                                       such recipients (notes/patches/C01-shareclass-reject-blocked-recipient.patch) *)
 }.
+(* does the end blocker visit this entry at [now]? *)
+Definition sc_pays (now : Z) (e : ShareClass.unb) : bool :=
+  negb (ShareClass.unix now <? ShareClass.unix (ShareClass.u_time e)) && negb (now <? ShareClass.u_time e).
+Definition E_BLOCKED : Z := 4.      (* sdkerrors.ErrUnauthorized: "... is not allowed to receive funds" *)
 Definition sc_end (now : Z) (i : sc_in) : res (list ShareClass.unb) :=
+  (* SendCoinsFromModuleToAccount to a blocked address fails: the end blocker returns the error *)
+  if existsb (fun e => sc_pays now e && existsb (Z.eqb (ShareClass.u_id e)) (sc_blocked i)) (sc_queue i)
+  then Err E_BLOCKED else
   match ShareClass.gc true now (sc_queue i) (fun _ _ => 0)
           (fun d => if d =? ShareClass.BOND then sc_mod_bond i + sc_released i else 0) with
   | Ok (q, _, _) => Ok q
